@@ -41,13 +41,13 @@ REQUIRED_COUNTERS = {"quick": {"original_fingerprints_compared": 4000, "fingerpr
                                "sibling_vs_fresh_derivation": 1000, "copy_name_checked": 4000, "origin_chain_checked": 3000,
                                "op_results_vs_baseline": 3000, "cond_consistency_checked": 3000, "model_args_vs_reference": 150,
                                "sampler_runs_completed": 150, "gibbs_sweeps_observed": 400, "gibbs_chain_vs_untouched_twin": 10,
-                               "recondition_loop_steps": 3500, "loop_conditional_vs_joint": 500},
+                               "recondition_loop_steps": 3500, "loop_conditional_vs_joint": 500, "autoname_names_checked": 150},
                      "thorough": {"original_fingerprints_compared": 40000, "fingerprint_fields_compared": 2000000,
                                   "derived_fingerprints_compared": 50000, "twin_fingerprints_compared": 22000,
                                   "sibling_vs_fresh_derivation": 10000, "copy_name_checked": 40000, "origin_chain_checked": 30000,
                                   "op_results_vs_baseline": 30000, "cond_consistency_checked": 30000, "model_args_vs_reference": 1500,
                                   "sampler_runs_completed": 1500, "gibbs_sweeps_observed": 3000, "gibbs_chain_vs_untouched_twin": 70,
-                                  "recondition_loop_steps": 60000, "loop_conditional_vs_joint": 8000}}
+                                  "recondition_loop_steps": 60000, "loop_conditional_vs_joint": 8000, "autoname_names_checked": 1300}}
 BUDGET_S = {"quick": 600.0, "thorough": 3000.0}   # watchdog only; typical use is far below (see report)
 
 RTOL, ATOL = 1e-9, 1e-12
@@ -69,6 +69,9 @@ def _hier_opts(R, tier):
 def _chain_opts(R, tier):
     return {"k": R.choice([1, 1, 2, 3]), "a": R.choice(G.CHAIN_ROOTS), "b": R.choice(G.CHAIN_B), "c": R.choice(G.CHAIN_C),
             "loose": R.choice(G.CHAIN_LOOSE), "order": R.randint(0, 5), "defer": R.choice(G.DEFERRED)}
+
+AUTONAME_FAMILIES = ["gauss_fun", "gauss_model", "normal_fun", "laplace_fun", "lognormal_fun", "gmrf_prec", "cauchy_fun",
+                     "gamma_root", "gauss_root", "uniform_root", "beta_root", "joint_xy"]
 
 GIBBS_X = ["gmrf_d", "gauss_cov_d", "gauss_prec_d", "lmrf_d", "reg_d", "reggmrf_d", "gmrf_fix", "gauss_covmat"]
 
@@ -103,8 +106,12 @@ def cases(tier, seed):
             opts["c"] = R.choice(["gauss_ab", "normal_a_b", "gauss_b", "lognormal_ab"])
         steps = 300 if tier == "quick" else (5000 if i % 5 == 0 else 600)
         out.append({"kind": "loop", "i": i, "tpl": tpl, "opts": opts, "sweeps": steps})
+    nauto = 48 if tier == "quick" else 400
+    for i in range(nauto):
+        out.append({"kind": "autoname", "i": i, "tpl": "autoname", "family": AUTONAME_FAMILIES[i % len(AUTONAME_FAMILIES)],
+                    "order": ["copy_first", "name_first", "copy_first_reversed"][(i // len(AUTONAME_FAMILIES)) % 3], "opts": {}})
     # the few long cases first (spread over the shards), so that a wall-clock budget cuts programs, not whole case kinds
-    rank = {"loop": 0, "gibbs": 1, "seq": 2}
+    rank = {"loop": 0, "gibbs": 1, "autoname": 1, "seq": 2}
     out.sort(key=lambda c: (rank[c["kind"]], -c.get("sweeps", 0) if c["kind"] == "loop" else c["i"]))
     return out
 
@@ -1389,6 +1396,8 @@ def run_case(case, ctx):
         run_gibbs(case, ctx)
     elif case["kind"] == "loop":
         run_loop(case, ctx)
+    elif case["kind"] == "autoname":
+        run_autoname(case, ctx)
     else:
         raise ValueError(case["kind"])
 
@@ -1624,6 +1633,116 @@ def run_loop(case, ctx):
     F.twin(lambda Tw, eid: Tw.joint(**_data_kwargs(Tw)), op)
     ctx.nontrivial()
     ctx.nontrivial(f"loop/{case['tpl']}/{S}")
+
+# ---- originals WITHOUT an explicit name= (the name is inferred from the Python variable that holds them)
+
+def _autoname_make(cuqi, family, rs):
+    """-> (distribution built without name=, value of its conditioning variable 'x' or None, value of the variable itself)."""
+    D = cuqi.distribution
+    if family == "gauss_fun":
+        return D.Gaussian(lambda x: x, np.ones(2)), rs.standard_normal(2), rs.standard_normal(2)
+    if family == "gauss_model":
+        A = rs.standard_normal((3, 2))
+        return D.Gaussian(cuqi.model.LinearModel(A), 0.5), rs.standard_normal(2), rs.standard_normal(3)
+    if family == "normal_fun":
+        return D.Normal(lambda x: x, 0.8, geometry=2), rs.standard_normal(2), rs.standard_normal(2)
+    if family == "laplace_fun":
+        return D.Laplace(lambda x: x, 0.8, geometry=2), rs.standard_normal(2), rs.standard_normal(2)
+    if family == "lognormal_fun":
+        return D.Lognormal(lambda x: x, 0.4 * np.eye(2), geometry=2), rs.standard_normal(2), np.exp(0.3 * rs.standard_normal(2))
+    if family == "gmrf_prec":
+        return D.GMRF(np.zeros(5), lambda x: x), float(np.exp(rs.standard_normal())), rs.standard_normal(5)
+    if family == "cauchy_fun":
+        return D.Cauchy(lambda x: x, 0.6, geometry=2), rs.standard_normal(2), rs.standard_normal(2)
+    if family == "gamma_root":
+        return D.Gamma(2.0, 1.0), None, float(np.exp(0.3 * rs.standard_normal()))
+    if family == "gauss_root":
+        return D.Gaussian(np.zeros(2), 1.3), None, rs.standard_normal(2)
+    if family == "uniform_root":
+        return D.Uniform(-1.0, 2.0), None, float(rs.uniform(-0.5, 1.5))
+    if family == "beta_root":
+        return D.Beta(2.0, 3.0), None, float(rs.uniform(0.2, 0.8))
+    raise ValueError(family)
+
+def _autoname_scenario(cuqi, family, order, rs):
+    """All objects live in locals of THIS frame only, each under one name; the original is `y` (or `x`,`y` for the joint).
+    Returns [(step, type of derived object, expected name, observed name or ('exc', type))]. `.name` is read here, directly."""
+    def nm(fn):
+        try:
+            return fn()
+        except Exception as e:  # noqa
+            return ("exc", type(e).__name__)
+    rec = []
+    if family == "joint_xy":
+        x = cuqi.distribution.Gaussian(np.zeros(2), 1.0)
+        y = cuqi.distribution.Gaussian(lambda x: x, 0.5 * np.ones(2))
+        if order == "name_first":
+            rec.append(("original", "Gaussian", "y", nm(lambda: y.name)))
+        jj = cuqi.distribution.JointDistribution(x, y)
+        dv, xv = rs.standard_normal(2), rs.standard_normal(2)
+        post = jj(y=dv)
+        lk = jj(x=xv)
+        q = [("joint_factor_names", "JointDistribution", ["x", "y"], lambda: list(jj.get_parameter_names())),
+             ("posterior_prior", type(post).__name__, "x", lambda: post.prior.name),
+             ("posterior_likelihood", type(post).__name__, "y", lambda: post.likelihood.name),
+             ("joint_cond_x", type(lk).__name__, ["y"], lambda: list(lk.get_parameter_names())),
+             ("original_x", "Gaussian", "x", lambda: x.name), ("original", "Gaussian", "y", lambda: y.name)]
+        for step, cls, exp, fn in (reversed(q) if order == "copy_first_reversed" else q):
+            rec.append((step, cls, exp, nm(fn)))
+        return rec
+    y, xv, dv = _autoname_make(cuqi, family, rs)
+    if order == "name_first":
+        rec.append(("original", type(y).__name__, "y", nm(lambda: y.name)))
+    cp = y()                                   # empty conditioning: plain copy
+    if xv is None:                             # fully specified original
+        ev = y(dv)                             # positional on its own value -> constant density
+        tl = y.to_likelihood(dv)
+        ev2 = cp(dv)
+        q = [("cond_pos_own_value", ev, lambda: ev.name), ("to_likelihood", tl, lambda: tl.name), ("copy", cp, lambda: cp.name),
+             ("copy_cond_pos_own_value", ev2, lambda: ev2.name)]
+    else:
+        lik = y(y=dv)                          # -> Likelihood
+        ev = lik(x=xv)                         # -> constant density
+        cc = y(x=xv)                           # -> conditioned copy
+        ev2 = cc(y=dv)
+        ev2b = cc(dv)
+        ev3 = y(x=xv, y=dv)
+        ev4 = y(xv, dv)
+        tl = y.to_likelihood(dv)
+        tl2 = cc.to_likelihood(dv)
+        lk2 = cp(y=dv)
+        q = [("cond_kw_own_name", lik, lambda: lik.name), ("likelihood_cond", ev, lambda: ev.name), ("cond_kw", cc, lambda: cc.name),
+             ("copy_cond_kw_own_name", ev2, lambda: ev2.name), ("copy_cond_pos", ev2b, lambda: ev2b.name),
+             ("cond_kw_all", ev3, lambda: ev3.name), ("cond_pos_all", ev4, lambda: ev4.name), ("to_likelihood", tl, lambda: tl.name),
+             ("copy_to_likelihood", tl2, lambda: tl2.name), ("copy", cp, lambda: cp.name), ("copy_cond_kw_own_name2", lk2, lambda: lk2.name)]
+    if order == "copy_first_reversed":
+        q = q[::-1]
+    for step, o_, fn in q:
+        rec.append((step, type(o_).__name__, "y", nm(fn)))
+    rec.append(("original", type(y).__name__, "y", nm(lambda: y.name)))
+    return rec
+
+def run_autoname(case, ctx):
+    import cuqi
+    rs = core.np_rng(ctx.seed, PROPERTY, core.canon(case), "autoname")
+    family, order = case["family"], case["order"]
+    rec = _autoname_scenario(cuqi, family, order, rs)
+    judged = 0
+    for step, cls, exp, got in rec:
+        if got is None or (isinstance(got, tuple) and got and got[0] == "exc"):
+            ctx.count("autoname_unjudged")          # name inference itself refused / found nothing: fragile by design, not judged
+            continue
+        ctx.count("autoname_names_checked")
+        ctx.count("copy_name_checked")
+        judged += 1
+        if got != exp:
+            ctx.violation("copy_name_changed", {"kind": "autoname", "tpl": "autoname", "family": family, "order": order, "step": step, "result": cls},
+                          detail=f"original created without name= and held by the variable {exp!r}: {step} gave a {cls} named {got!r} "
+                                 f"(order of events: {order}; all names read: {[(s_, g_) for s_, _, _, g_ in rec]})")
+    if judged >= 3:
+        ctx.nontrivial()
+        ctx.nontrivial(f"autoname/{family}/{order}")
+    ctx.note("autoname", [(s_, g_ if not isinstance(g_, tuple) else list(g_)) for s_, _, _, g_ in rec][:12])
 
 def selftest(ctx):
     import cuqi  # noqa
